@@ -702,6 +702,13 @@ def gen_points(c):
         cx('log2(-%s)' % xs, 'log2 %s' % X, '(PI / ln 2)', complex(math.log2(float(x)), math.pi / math.log(2)), 'complex-log')
         y = Fraction(r.randint(1, 999), 1000)
         cx('acosh(%s)' % fx(0, y.numerator, y.denominator), '0', 'acos %s' % cq(y), complex(0, math.acos(float(y))), 'complex-acosh', either_im=True)
+    # --- closed ends of the domains: in the domain, must be values (true values: PointDefs.edge_values)
+    for (e_, coq, ref, f_) in [('asin(1)', '(PI / 2)', math.pi / 2, 'asin'), ('asin(-1)', '(- (PI / 2))', -math.pi / 2, 'asin'),
+                               ('acos(1)', '0', 0.0, 'acos'), ('acos(-1)', 'PI', math.pi, 'acos'), ('acosh(1)', '0', 0.0, 'acosh'),
+                               ('atan(0)', '0', 0.0, 'atan'), ('sinh(0)', '0', 0.0, 'sinh'), ('cosh(0)', '1', 1.0, 'cosh'),
+                               ('atanh(0)', '0', 0.0, 'atanh'), ('log2(1)', '0', 0.0, 'log2'), ('log10(1)', '0', 0.0, 'log10'),
+                               ('log10(10)', '1', 1.0, 'log10'), ('log2(1024)', '10', 10.0, 'log2'), ('exp(0)', '1', 1.0, 'exp')]:
+        pts.append(Pt(e_, coq, ref, 'domain-end', fn=f_, xabs=1))
     # --- domain edges: must be errors
     for e_ in ['ln 0', 'log2 0', 'log10 0', 'log 0', '0^0', '0^(-1)', 'tan(pi/2)', 'tan(90 degrees)', 'tan(-3pi/2)', 'atanh 1', 'atanh(-1)', '0^(-1/2)']:
         pts.append(Pt(e_, None, None, 'domain-edge', fn='edge', expect='error'))
